@@ -416,7 +416,8 @@ func extractPlan(p *Prog) (*scanPlan, error) {
 // over provenance atoms (boolean helpers inlined, conjunctions flattened). A condition that does not
 // flatten into literals (the negative side of a conjunction) is returned as one opaque literal.
 func pathLiterals(p *Prog, fn *ssa.Function, b *ssa.BasicBlock) []*qf {
-	return pathLiteralsWith(&quantizer{p: p, elemVar: map[ssa.Value]string{}, inlineAll: true}, fn, b)
+	// boolean helpers are inlined, value helpers (rest(), peekByte()) are seen through
+	return pathLiteralsWith(&quantizer{p: p, elemVar: map[ssa.Value]string{}, inlineAll: true, stop: map[string]bool{}}, fn, b)
 }
 
 // pathLiteralsWith: as pathLiterals, with the caller's quantizer (its provenance options apply).
@@ -464,6 +465,7 @@ var (
 	litHasMoreRe  = regexp.MustCompile(`^\((.+)\.index < len\((.+)\.expression\)\)$`)
 	litNextStrRe  = regexp.MustCompile(`^\(("(?:[^"\\]|\\.)*") == (.+)\.expression\[(.+)\.index:\((.+)\.index \+ 1\)\]\)$`)
 	litNextByteRe = regexp.MustCompile(`^\((\d+) == (.+)\.expression\[(.+)\.index\]\)$`)
+	litAfterRe2   = regexp.MustCompile(`^strings\.HasPrefix\((.+)\.expression\[(.+)\.index:\]\[1:\], ("(?:[^"\\]|\\.)*")\)$`)
 	litAfterRe    = regexp.MustCompile(`^strings\.HasPrefix\((.+)\.expression\[\((.+)\.index \+ 1\):\], ("(?:[^"\\]|\\.)*")\)$`)
 	litSuffixRe   = regexp.MustCompile(`^strings\.HasSuffix\((.+), ("(?:[^"\\]|\\.)*")\)$`)
 	litCutRe      = regexp.MustCompile(`^strings\.CutSuffix\((.+), ("(?:[^"\\]|\\.)*")\)#1$`)
@@ -502,6 +504,9 @@ func classifyPlanLiteral(l *qf, recv, id string) (string, string) {
 		}
 	}
 	if m := litAfterRe.FindStringSubmatch(s); m != nil && m[1] == recv && m[2] == recv && neg {
+		return "notAfter", unq(m[3])
+	}
+	if m := litAfterRe2.FindStringSubmatch(s); m != nil && m[1] == recv && m[2] == recv && neg {
 		return "notAfter", unq(m[3])
 	}
 	if m := litSuffixRe.FindStringSubmatch(s); m != nil && m[1] == id && !neg {
